@@ -22,7 +22,7 @@ for c, k in items:
         for p in ([c] if os.environ.get("KEEP_OWN_ONLY") == "1" else [c, "ALL"]):
             r = subprocess.run([os.path.join(ROOT, "check"), p, "quick"], cwd=ROOT, stdout=subprocess.PIPE, stderr=subprocess.STDOUT, env=dict(os.environ, VERIF_DEV_NATIVE_ONLY="1"))
             out = r.stdout.decode("utf-8", "replace")
-            keys = re.findall(r"^  key=(\S+) count=(\d+)", out, re.M)
+            keys = re.findall(r"^  key=(.+?) count=(\d+) leg=", out, re.M)
             details = re.findall(r"^  (\[.*)$", out, re.M)
             res[p] = {"exit": r.returncode, "keys": [k_ for k_, _ in keys], "details": [d[:400] for d in details[:6]]}
             print(c, k, p, "exit", r.returncode, [k_ for k_, _ in keys][:4], flush=True)
